@@ -347,7 +347,10 @@ def r043(report, g, lm):
     # every marker run of up to three items is fed through the lexer's
     # own transition function after the keyword
     kinds_ = (('LINE_TERMINATOR', '\n'), ('BLOCK_COMMENT', '/*c*/'),
-              ('BLOCK_COMMENT', '/*\n*/'), ('LINE_COMMENT', '//c'))
+              ('BLOCK_COMMENT', '/*\n*/'), ('LINE_COMMENT', '//c'),
+              # characters str.splitlines() breaks on but ES5 7.3 does not
+              ('BLOCK_COMMENT', '/*\x0b\x0c\x1c\x85*/'),
+              ('BLOCK_COMMENT', '/*\u2029*/'))
     runs = []
     for k in range(1, 4):
         for run in itertools.product(kinds_, repeat=k):
@@ -379,12 +382,15 @@ def r043(report, g, lm):
                                          if q not in queued]
             except Raised as e:
                 autos = 'raises %s' % e.text
-            has_lt = any(x[0] == 'LINE_TERMINATOR' or '\n' in x[1]
-                         for x in run)
+            has_lt = any(x[0] == 'LINE_TERMINATOR' or
+                         set(x[1]) & set(ES5_LINE_TERMINATORS) for x in run)
             want = 1 if (ptype in RESTRICTED_PREFIX and has_lt) else 0
-            label = ' '.join('BLOCK_COMMENT(multi-line)' if '\n' in x[1]
-                             and x[0] == 'BLOCK_COMMENT' else x[0]
-                             for x in run)
+            label = ' '.join(
+                x[0] if x[0] != 'BLOCK_COMMENT' else
+                'BLOCK_COMMENT(multi-line)' if set(x[1]) & set(
+                    ES5_LINE_TERMINATORS) else
+                'BLOCK_COMMENT(form feed)' if '\x0c' in x[1] else x[0]
+                for x in run)
             construct = '%s %s ID' % (ptype, label)
             if autos == want:
                 rule.ok(construct)
